@@ -119,7 +119,8 @@ def cmd_run(names, tier="quick", all_checks=False):
                     row.setdefault("errors", []).append("%s rc=%d %s" % (p, r.returncode, r.stdout[-200:]))
             row["status"] = "detected" if prop in row["detected_by"] else ("detected-by-other" if row["detected_by"] else "MISSED")
             results.append(row)
-            print("%-10s %-18s by=%s %s" % (n, row["status"], ",".join(row["detected_by"]), (row["relations"] or [""])[0][:150]))
+            print("%-10s %-18s by=%s %s%s" % (n, row["status"], ",".join(row["detected_by"]), (row["relations"] or [""])[0][:150],
+                                              ("  HARNESS-ERRORS: %r" % row["errors"]) if row.get("errors") else ""))
             sys.stdout.flush()
         finally:
             drop(tmp, w)
